@@ -61,6 +61,19 @@ func (cx *Ctx) bceSSAProof(ix *ast.IndexExpr) (bool, string) {
 	}
 	i, ok := constInt(idx)
 	if !ok {
+		// x[slices.IndexFunc(x, pred)] (or slices.Index) where the result was found >= 0: the library hands back -1
+		// or a valid index of the very slice it searched
+		if ic, isC := idx.(*ssa.Call); isC && len(ic.Call.Args) >= 1 {
+			if n := calleeName(ic); n == "slices.IndexFunc" || n == "slices.Index" || len(n) > 13 && (n[:13] == "slices.Index[" || n[:17] == "slices.IndexFunc[") {
+				if ic.Call.Args[0] == x || cx.Fx.path(ic.Call.Args[0]) == cx.Fx.path(x) {
+					for _, a := range cx.Fx.AtomsAt(in) {
+						if bo, isB := stripNot(a.Cond).(*ssa.BinOp); isB && a.Op == "LT" && a.Neg && (bo.X == ssa.Value(ic) && a.B == "const:0") {
+							return true, "index found by " + n + " over the same slice and tested >= 0"
+						}
+					}
+				}
+			}
+		}
 		return false, "index is not a constant"
 	}
 	p := &bceProver{cx: cx, fn: in.Parent(), at: in, busy: map[ssa.Value]bool{}}
